@@ -654,6 +654,10 @@ func (h *hist) clientFetch(present bool) {
 	if present {
 		cls = "present"
 	}
+	if bb := h.big[ref]; present && bb != nil {
+		h.bigClientFetch(bb)
+		return
+	}
 	h.begin("get", "pkg/client", "Fetch."+cls, fmt.Sprintf("%s (%d B)", ref, h.present[ref]))
 	br := blob.MustParse(ref)
 	ctx, cancel := ctx90()
@@ -711,6 +715,10 @@ func (h *hist) rawGetRef(method, ref string, present bool) {
 	cls := "absent"
 	if present {
 		cls = "present"
+	}
+	if bb := h.big[ref]; present && bb != nil && method == "GET" {
+		h.bigRawGet(bb) // streamed comparison
+		return
 	}
 	h.begin("get", "raw", method+"."+cls, fmt.Sprintf("%s (%d B)", ref, h.present[ref]))
 	r, err := h.raw.get(method, ref, "")
@@ -1212,5 +1220,6 @@ func (h *hist) audit() {
 		h.rawChain(c)
 	}
 	h.clientEnumSimple()
+	h.auditBoundary()
 	h.checkServerLog()
 }
